@@ -127,21 +127,25 @@ for tname in ('LITERAL_STRING', 'NUMBER', 'NAME', 'REGISTER'):
     c = contract(EPP, 'ExpressionParser._atom', serves=['C16', 'C02', 'C06'], uses=('parser',), name='ExpressionParser._atom[%s, any text]' % tname)
     c.setup(_atom_setup(tname))
     c.ensures('accept-or-message', 'result is True or (falsy(result) and errs() > old(errs()))')
+    c.ensures('no-message-when-accepted', 'result is True ==> errs() == old(errs())')
     c.ensures('an-operand-token-is-an-operand-whatever-it-spells',
               "result is True ==> len(emitted(_p)) == 1 and is_seg(emitted(_p)[0], 'value')")
 
 c = contract(EPP, 'ExpressionParser._atom', serves=['C02', 'C06'], uses=('parser',), name="ExpressionParser._atom[MARK '(']")
 c.setup(_atom_setup('MARK', '('))
 c.ensures('accept-or-message', 'result is True or (falsy(result) and errs() > old(errs()))')
+c.ensures('no-message-when-accepted', 'result is True ==> errs() == old(errs())')
 c.ensures('parenthesised-expression', "result is True ==> len(emitted(_p)) == 1 and is_seg(emitted(_p)[0], 'expr') and tokens_consumed() >= 3")
 c = contract(EPP, 'ExpressionParser._atom', serves=['C02', 'C06'], uses=('parser',), name="ExpressionParser._atom[MARK '-']")
 c.setup(_atom_setup('MARK', '-'))
 c.ensures('accept-or-message', 'result is True or (falsy(result) and errs() > old(errs()))')
+c.ensures('no-message-when-accepted', 'result is True ==> errs() == old(errs())')
 c.ensures('a-leading-minus-negates-its-operand', "result is True ==> len(emitted(_p)) == 3 and is_seg(emitted(_p)[0], 'atom') and "
           "instr(emitted(_p)[1], 'PUSHQ', -1) and instr(emitted(_p)[2], 'OP', Operator.MUL)")
 c = contract(EPP, 'ExpressionParser._atom', serves=['C02', 'C06'], uses=('parser',), name="ExpressionParser._atom[MARK '+']")
 c.setup(_atom_setup('MARK', '+'))
 c.ensures('accept-or-message', 'result is True or (falsy(result) and errs() > old(errs()))')
+c.ensures('no-message-when-accepted', 'result is True ==> errs() == old(errs())')
 c.ensures('a-leading-plus-changes-nothing', "result is True ==> len(emitted(_p)) == 1 and is_seg(emitted(_p)[0], 'atom')")
 
 # Token.is_binop / prec: a quoted string is never an operator
